@@ -10,6 +10,7 @@ From PowHsm Require Import Proofs.SrcEquivVersion.
 From PowHsm Require Import Proofs.SrcLiftC09.
 From PowHsm Require Import Gen.SrcM.
 From PowHsm Require Import Proofs.SrcEquivDongleM.
+From PowHsm Require Import Proofs.SrcEquivPinM.
 Open Scope N_scope.
 
 (* version compatibility: same major, firmware minor.patch lexicographically not newer than the manager's *)
@@ -159,5 +160,12 @@ Theorem C09_source_get_retries_is_model :
   forall (self : pv) (w : world),
          srcm_HSM2Dongle__get_retries self w = mres vN (get_retries KLedger w).
 Proof. exact (@srcm_get_retries_ok). Qed.
+
+(* TIE BY TRANSLATION (device monad): unlock of ledger/hsm2dongle.py (Ledger), as regenerated from the source text, sends the PIN byte by byte then UNLOCK and reads the verdict exactly as the model, on every world *)
+Theorem C09_source_unlock_is_model :
+  forall (self : pv) (pin : bytes) (w : world),
+         small_bytes pin ->
+         srcm_HSM2Dongle__unlock self (VBytes pin) w = mres VBool (unlock KLedger pin w).
+Proof. exact (@srcm_unlock_ok). Qed.
 
 Example C09_nonvacuous : True. Proof. exact I. Qed. (* concrete bring-ups closed by vm_compute in Proofs/C09.v: Ledger bootloader reaching unlock and serving, retries = 1 stopping with no unlock APDU, SGX, signer 5.4.2 refused, PIN change stopping *)
